@@ -25,7 +25,17 @@ REPO = os.environ.get("VERIF_REPO", "/repo")
 BUILD = os.path.join(VERIF, ".build")
 COQ = os.path.join(VERIF, "coq")
 HARNESS = os.path.join(VERIF, "harness")
-NCPU = os.cpu_count() or 4
+NCPU = int(os.environ.get("VERIF_JOBS", "0")) or os.cpu_count() or 4
+
+
+def mem_available_gb():
+    try:
+        for l in open("/proc/meminfo"):
+            if l.startswith("MemAvailable:"):
+                return int(l.split()[1]) / 2**20
+    except OSError:
+        pass
+    return 1e9
 
 FORBIDDEN = re.compile(
     r"\b(Admitted|admit|Axiom|Axioms|Parameter|Parameters|Conjecture|Conjectures|"
@@ -371,6 +381,10 @@ class Check:
         running = []
         while pending or running:
             while pending and len(running) < NCPU:
+                # a shard can need 1-5 GB: when other checks run beside this one, do not start another
+                # shard while memory is short (a shard killed by the kernel would be a broken evaluation)
+                if running and mem_available_gb() < 8:
+                    break
                 si, path = pending.pop(0)
                 p = subprocess.Popen(["timeout", str(timeout), "coqc", "-Q", COQ, "V", path],
                                      cwd=self.bdir, stdout=subprocess.PIPE, stderr=subprocess.STDOUT, text=True,
